@@ -43,6 +43,6 @@ import json;m=json.load(open('$out/index.json'))[$i];print(m['id'],m['line'],m['
     fi
   fi
   git -C $R checkout -- .
-  echo -e "$id\t$line\t$fn\t$desc\t$res\t$by" >> $tsv
+  printf '%s\t%s\t%s\t%s\t%s\t%s\n' "$id" "$line" "$fn" "$desc" "$res" "$by" >> $tsv
 done
 awk -F'\t' 'NR>1{c[$5]++} END{for(k in c) print k, c[k]}' $tsv
